@@ -11,6 +11,7 @@ import MTVerif.Model.GetStub
 import MTVerif.Model.Store
 import MTVerif.Model.Tracer
 import MTVerif.Model.Filter
+import MTVerif.Model.Contain
 namespace MT
 open Sexp
 
@@ -191,6 +192,16 @@ def handle (st : DState) (req : Sexp) : Except String (DState × Sexp) :=
       let ci : Filter.CodeInfo := { filename := ← strOf fn, parts := ← parts.mapM strOf, stem := ← strOf stem }
       .ok (st, sexpOfBool (Filter.defaultFilter libs' allow' ci))
   | .list [.atom "storeKeeps", m] => do .ok (st, sexpOfBool (Filter.storeKeeps (← strOf m)))
+  | .list [.atom "traceCalls", body, flush] => do
+      let oc (x : Sexp) : Except String Contain.Outcome := match x with
+        | .atom "ok" => .ok .ok | .atom "exc" => .ok .exc | .atom "baseExc" => .ok .baseExc | _ => .error "bad outcome"
+      let r := Contain.traceCalls { profiler := 7, flushes := 0 } 99 (← oc body) (← oc flush)
+      let so (o : Contain.Outcome) : Sexp := match o with | .ok => .atom "ok" | .exc => .atom "exc" | .baseExc => .atom "baseExc"
+      .ok (st, .list [sexpOfBool (r.1.profiler == 7), .atom (toString r.1.flushes), so r.2])
+  | .list [.atom "probes", v] => do
+      let ps := Contain.probes (← valOf v)
+      .ok (st, .list [.atom (toString ps.length),
+                      .atom (toString (ps.filter (fun p => p.2 != .typeOf && !Contain.isExact p.1)).length)])
   | .list [.atom "trig", r, t] => do
       .ok (st, sexpOfBool ((← tyOf t).trig (← rwOf r)))
   | .list [.atom "normal", t] => do
